@@ -5,12 +5,14 @@
     P <mode> <specs> <arg>*                       one vector against `parse_arguments`
     S <cmd> <mode> <specs> <setup> <probe> <arg>* ( | <arg>* )*   equivalent spellings of one invocation
     M <cmd> <mode> <specs> <setup> <probe> <arg>*                 a malformed invocation
+    G <optstring> <arg>*                          `while getopts optstring v arg…` run to the end
   <mode>  = three bits: long_option_names, extension_options, option_arguments_in_same_field
   <specs> = `_` (empty table) or comma-separated `<short>:<long>:<takesArg>:<extension>`
 -/
 import YashModel.Common.Proto
 import YashModel.Args.Model
 import YashModel.Args.Spec
+import YashModel.Args.Getopts
 open YashModel YashModel.Args YashModel.Proto
 
 def parseBit (c : Char) : Option Bool :=
@@ -90,6 +92,32 @@ def specVerdict (specs : List OptionSpec) (mode : Mode) (args : List Str) (r : P
   let s := Spec.parse specs mode args
   if showView v = showView s then none else some s!"FAIL:spec-predicts {showView s}"
 
+/-! getopts leg -/
+
+def showOptind (p : Nat × Nat) : String := if p.2 = 1 then s!"{p.1}" else s!"{p.1}:{p.2}"
+
+def showGetopts (r : List Getopts.Ev × Option Nat) : String :=
+  let evs := r.1.map fun e => s!"{encChars [e.var]},{showOptStr e.optarg},{showOptind e.optind}"
+  let diags := (r.1.filter (·.diag)).length
+  let fin := match r.2 with
+    | some i => s!"3f,~,{i},st1"
+    | none => "LOOP"
+  s!"[{";".intercalate evs}] end={fin} diag={diags}"
+
+def showGObs (o : Getopts.Obs) : String :=
+  let evs := o.1.map fun (v, a, d) => s!"{encChars [v]},{showOptStr a},{bit d}"
+  let ops := match o.2 with
+    | some l => ",".intercalate (l.map encChars)
+    | none => "LOOP"
+  s!"[{";".intercalate evs}] [{ops}]"
+
+def runGetopts (spec : Str) (args : List Str) : String :=
+  let r := Getopts.walkAll spec args
+  let o := Getopts.obsOf args r
+  let s := Getopts.specObs spec args
+  let verdict := if showGObs o = showGObs s then "ok" else s!"FAIL:separated-spelling-gives {showGObs s}"
+  showGetopts r ++ "\t" ++ verdict
+
 def runLine (line : String) : String :=
   match words line with
   | "P" :: m :: sp :: args =>
@@ -122,6 +150,10 @@ def runLine (line : String) : String :=
          | none => match r with | .error _ => "ok" | .ok _ => "FAIL:malformed-accepted"
        obs ++ "\t" ++ spec
      | _, _, _ => "bad-case\t-")
+  | "G" :: sp :: args =>
+    (match decChars sp, args.mapM decChars with
+     | some spec, some args => runGetopts spec args
+     | _, _ => "bad-case\t-")
   | _ => "bad-case\t-"
 
 def main : IO Unit := mainLoop runLine
